@@ -131,51 +131,60 @@ def rand_opts(rng):
             "seq": rng.randrange(2), "route": rng.randrange(2)}
 
 
-def stress_cases(rng, n, quick):
-    """python-drawn documents the small TLC shapes cannot reach."""
+def stress_cases(rng, nruns, quick):
+    """python-drawn documents the small TLC shapes cannot reach; several documents per run."""
+    def num(lit):
+        n_ = J.node("num", a=J.atom(lit))
+        n_["lit"] = lit
+        return n_
+
+    pool = {"wide": [], "num": [], "string": [], "dupspell": [], "rand": []}
+    for i in range(60):
+        pool["wide"].append(J.wide_object(rng, rng.choice((16, 17, 18, 25, 40)), dup=(i % 4 != 3)))
+    for lit in J.NUM_LITS:
+        pool["num"] += [num(lit), J.node("obj", ks=[[110]], ch=[num(lit)])]
+    pool["num"].append(J.node("arr", ch=[num(lit) for lit in J.NUM_LITS]))
+    for i in range(60):
+        s_ = J.node("str", cp=[rng.choice(J.CP_POOL) for _ in range(rng.choice((1, 30, 300, 2000)))])
+        pool["string"].append(rng.choice((s_, J.node("arr", ch=[s_]), J.node("obj", ks=[s_["cp"][:20]], ch=[s_]))))
+    for i in range(60):
+        k = J.rand_key(rng)
+        t = J.node("obj", ks=[k, J.rand_key(rng), list(k), list(k)][:rng.choice((2, 3, 4))], ch=[])
+        t["ch"] = [J.rand_tree(rng, 3, 1, 0.3, False) for _ in t["ks"]]
+        pool["dupspell"].append(t)
+    for i in range(200):
+        pool["rand"].append(J.rand_tree(rng, rng.choice((1, 3, 8, 20, 60)), 0, rng.choice((0.0, 0.3, 0.6))))
+
     cases = []
 
     def add(trees, o=None, style=None, esc=None, why=""):
-        o = o or rand_opts(rng)
-        if o["raw"] == 2 and len(trees) > 1:
-            trees = trees[:1]
+        o = dict(o) if o else rand_opts(rng)
         if o["raw"]:
             trees = [t if t["t"] != "str" else J.node("arr", ch=[t]) for t in trees]
+        if o["raw"] == 2 and len(trees) > 1:
+            trees = [t if t["t"] in ("arr", "obj") else J.node("arr", ch=[t]) for t in trees]
         cases.append({"o": o, "trees": trees, "style": style or rng.choice(("wild", "wild", "compact", "space")),
                       "esc": rng.choice((0.0, 0.15, 0.6)) if esc is None else esc, "src": why})
 
     base = [{"lay": 9, "S": 0, "a": 0, "raw": 0, "seq": 0, "route": 0}, {"lay": 10, "S": 0, "a": 0, "raw": 0, "seq": 0, "route": 0},
             {"lay": 9, "S": 0, "a": 0, "raw": 0, "seq": 0, "route": 1}, {"lay": 9, "S": 1, "a": 0, "raw": 0, "seq": 0, "route": 0},
-            {"lay": 3, "S": 1, "a": 1, "raw": 1, "seq": 1, "route": 1}, {"lay": 8, "S": 0, "a": 1, "raw": 3, "seq": 0, "route": 0}]
-    # nesting at the documented depth, every container kind, both routes, compact and pretty
+            {"lay": 3, "S": 1, "a": 1, "raw": 1, "seq": 0, "route": 1}, {"lay": 8, "S": 0, "a": 1, "raw": 3, "seq": 0, "route": 0}]
+    # nesting at the documented depth (256 levels), every container kind, both routes, compact and pretty
     for i, o in enumerate(base):
         kind = ("arr", "obj", "mix")[i % 3]
-        add([J.deep_tree(rng, 256, kind, None)], dict(o), why="deep256-empty")
-        add([J.deep_tree(rng, 255, kind, J.rand_scalar(rng))], dict(o), why="deep255-scalar")
-        if not quick:
-            add([J.deep_tree(rng, rng.randrange(100, 250), "mix", J.rand_tree(rng, 6, 1))], dict(o), why="deep-mid")
-    # wide objects (> 16 fields: the duplicate probe sorts instead of scanning pairwise)
-    for i in range(max(12, n // 8)):
-        o = dict(base[i % len(base)]) if i < 2 * len(base) else None
-        add([J.wide_object(rng, rng.choice((16, 17, 18, 25, 40)), dup=(i % 4 != 3))], o, esc=(0.0 if i % 2 else 0.3), why="wide")
-    # every scalar spelling as a document and inside a container
-    for lit in J.NUM_LITS:
-        n_ = J.node("num", a=J.atom(lit))
-        n_["lit"] = lit
-        add([n_, J.node("arr", ch=[dict(n_)]), J.node("obj", ks=[[110]], ch=[dict(n_)])][:rng.choice((1, 3))], why="num")
-    # long / exotic strings
-    for i in range(max(10, n // 10)):
-        s = J.node("str", cp=[rng.choice(J.CP_POOL) for _ in range(rng.choice((1, 30, 300, 3000)))])
-        add([rng.choice((s, J.node("arr", ch=[s]), J.node("obj", ks=[s["cp"][:20]], ch=[s])))], why="string")
-    # escaped-vs-literal spellings of the same key
-    for i in range(max(10, n // 10)):
-        k = J.rand_key(rng)
-        t = J.node("obj", ks=[k, J.rand_key(rng), list(k), list(k)][:rng.choice((2, 3, 4))], ch=[])
-        t["ch"] = [J.rand_tree(rng, 3, 1, 0.3, False) for _ in t["ks"]]
-        add([t], esc=0.5, why="dupspell")
-    while len(cases) < n:
-        nd = rng.choice((1, 1, 2, 3))
-        add([J.rand_tree(rng, rng.choice((1, 3, 8, 20, 60)), 0, rng.choice((0.0, 0.3, 0.6))) for _ in range(nd)], why="rand")
+        add([J.deep_tree(rng, 256, kind, None), J.deep_tree(rng, 255, kind, J.rand_scalar(rng)),
+             J.deep_tree(rng, rng.randrange(129, 250), "mix", J.rand_tree(rng, 6, 1))], o, why="deep")
+    # --seq reads the input as RFC 7464 too: nesting 128 and 129..256 separately (known finding above 128)
+    for i, (o, d) in enumerate([(base[0], 128), (base[3], 127), (base[0], 129), (base[2], 200), (base[4], 256)]):
+        o = dict(o, seq=1)
+        add([J.deep_tree(rng, d, ("arr", "obj", "mix")[i % 3], None)], o, why="deep-seq")
+    for i in range(nruns - len(cases)):
+        kinds = ("wide", "num", "string", "dupspell", "rand")
+        kind = kinds[i % len(kinds)]
+        o = base[(i // len(kinds)) % len(base)] if i < len(kinds) * len(base) else None
+        k = rng.choice((4, 6, 8, 10))
+        trees = [rng.choice(pool[kind] if rng.random() < 0.7 else pool["rand"]) for _ in range(k)]
+        add(trees, o, esc=(rng.choice((0.0, 0.3)) if kind == "wide" else None), why=kind)
     return cases
 
 
@@ -196,7 +205,25 @@ def classify(ev, exp_route):
     return "value"
 
 
+def to_wire(ev):
+    """trace encoding: every tree as a flat preorder token list (see JsonPrint.tla FTree)"""
+    w = dict(ev)
+    w["in"] = [J.flat(t) for t in ev["in"]]
+    w["out"] = [{"pre": f["pre"], "v": J.flat(f["v"]), "post": f["post"]} for f in ev["out"]]
+    return w
+
+
+def from_wire(w):
+    if not w["in"] or isinstance(w["in"][0], dict):
+        return w
+    ev = dict(w)
+    ev["in"] = [J.unflat(t) for t in w["in"]]
+    ev["out"] = [{"pre": f["pre"], "v": J.unflat(f["v"]), "post": f["post"]} for f in w["out"]]
+    return ev
+
+
 def sig_of(e, events=None, k=None):
+    e = from_wire(e)
     o = e["o"]
     return {"event": "case", "cls": classify(e, expected_route(o)), "route": expected_route(o), "S": o["S"], "a": o["a"],
             "raw": o["raw"], "seq": o["seq"], "dup": int(any(J.has_dup(t) for t in e["in"])),
@@ -214,10 +241,10 @@ def run(ctx):
     ctx.cov["route_hook"] = "H5 present: routes logged and checked" if hook else "route names unavailable (hook H5 not compiled in)"
 
     # ---- spec -> impl: TLC draws the cases -------------------------------------------------
-    ngen = 300 if q else 3000
+    ngen = 110 if q else 1500
     workers = 2
     res = vlib.tlc(ctx, "Gen_JsonPrint.tla", "Gen_JsonPrint.cfg", workers=workers, simulate="num=%d" % (ngen // workers),
-                   depth=60, seed=ctx.seed, timeout=1200)
+                   depth=90, seed=ctx.seed, timeout=1200)
     lines = res.printed("REPLAY")
     if not lines:
         raise vlib.ToolError("Gen_JsonPrint printed nothing:\n" + res.out[-3000:])
@@ -237,7 +264,7 @@ def run(ctx):
         cases.append({"o": b["o"], "trees": trees, "style": rng.choice(("wild", "compact", "space", "wild")),
                       "esc": rng.choice((0.0, 0.15, 0.6)), "src": "gen",
                       "exp": [subst(t, leafmap) for t in b["exp"]], "pre": b["pre"], "post": b["post"], "rt": b["rt"]})
-    cases += stress_cases(rng, 260 if q else 2500, q)
+    cases += stress_cases(rng, 70 if q else 700, q)
 
     # ---- render, self-check the renderer with the two independent readers, run --------------
     jobs = []
@@ -279,15 +306,23 @@ def run(ctx):
         results = list(ex.map(work, jobs))
     ctx.stage("run CLI", time.time() - t0, runs=len(results))
 
-    # cross-check the frame reader against python's json on every single-frame output
+    # cross-check the strict reader against python's json on every frame it accepted
+    nframes = 0
     for ev, data, out, err in results:
-        if ev["rc"] == 0 and len(ev["out"]) == 1 and ev["out"][0]["v"]["t"] != "bad":
+        txt = None
+        for f in ev["out"]:
+            sp = f.pop("span", None)
+            if sp is None:
+                continue
+            if txt is None:
+                txt = out.decode("utf-8")
+            nframes += 1
             try:
-                txt = out.decode("utf-8").strip("\x1e\x00\n")
-                if J.from_python_json(txt) != ev["out"][0]["v"]:
+                if J.from_python_json(txt[sp[0]:sp[1]]) != f["v"]:
                     raise vlib.ToolError("the two independent readers disagree on CLI output of case %d" % ev["id"])
             except (ValueError, J.Bad):
                 raise vlib.ToolError("python json rejects an output the strict reader accepted (case %d)" % ev["id"])
+    ctx.cov["documents_printed_and_read_back"] = nframes
 
     # ---- spec -> impl comparison for the TLC-drawn cases ------------------------------------
     events = []
@@ -322,7 +357,9 @@ def run(ctx):
 
     # ---- impl -> spec: trace validation ------------------------------------------------------
     tp = ctx.path("trace.ndjson")
-    vlib.write_ndjson(tp, events)
+    suspects = [e for e in events if vlib.known_match(ctx.prop, sig_of(e)) is not None]
+    events = [e for e in events if vlib.known_match(ctx.prop, sig_of(e)) is None]
+    vlib.write_ndjson(tp, [to_wire(e) for e in events])
     # keep stdin/stdout of every case next to the trace for replay
     with open(ctx.path("cases.ndjson"), "w") as fh:
         for (i, c, data), (ev, _, out, err) in zip(jobs, results):
@@ -330,6 +367,12 @@ def run(ctx):
             fh.write(json.dumps({"id": i, "argv": ["jq"] + fl + [filt], "stdin": data.decode("utf-8"),
                                  "stdout": out.decode("utf-8", "replace"), "stderr": err[:300], "rc": ev["rc"]}) + "\n")
     n = vlib.check_trace(ctx, "Trace_JsonPrint.tla", "Trace.cfg", tp, sig_of, group_key=lambda e: True, timeout=1800)
+    if suspects:
+        # events whose signature is listed as a known finding: validated on their own (TLC must still be
+        # the one that rejects them; vlib drops what it rejects and re-validates the rest)
+        sp = ctx.path("trace-suspects.ndjson")
+        vlib.write_ndjson(sp, [to_wire(e) for e in suspects])
+        vlib.check_trace(ctx, "Trace_JsonPrint.tla", "Trace.cfg", sp, sig_of, group_key=lambda e: True, timeout=900, selftest=False)
     if not ctx.violations:
         value_selftest(ctx, events, rng)
 
@@ -391,7 +434,7 @@ def value_selftest(ctx, events, rng):
         bad["out"][0]["v"] = r[0]
         pref = events[max(0, k - 2):k] + [bad]
         p = ctx.path("selftest-%s.ndjson" % r[1])
-        vlib.write_ndjson(p, pref)
+        vlib.write_ndjson(p, [to_wire(x) for x in pref])
         matched, total = vlib.validate_trace(ctx, "Trace_JsonPrint.tla", "Trace.cfg", p)
         if matched != total - 1:
             raise vlib.ToolError("value self-test (%s): corrupted output accepted or rejected elsewhere (%d/%d)" % (r[1], matched, total))
